@@ -37,6 +37,22 @@ CHECKS = {
          "deterministic simulation with fault injection: worker death at every point of sampled histories, late teardown, replacement through the real WorkerFaulted path",
          "Workers killed (future dropped, or panic inside a service call) at random points and swept over every position of sampled histories; their outstanding connections complete arbitrarily late (stale availability notifications); the replacement is started by the real ServerInner::handle_cmd. Oracles: the accept loop never panics or spins, no connection is dropped while a handle remains, a failed send removes the handle at once, every discovered fault is answered by a replacement with the same index that rejoins the rotation and serves, fresh clients are served at the end.",
          "Worker death is modelled as the ServerWorker future being dropped (as when its thread unwinds); at most two kills per run.", "§4.4 C08"),
+ "C11": ("svcsim", "exploration",
+         "deterministic simulation: random combinator trees over scripted leaves under a strict-wake executor vs a tree interpreter",
+         "Random combinator expression trees (depth <= 3, service and factory forms, type-erased with the crate's own boxed wrappers, plus fixed un-erased nestings) over scripted leaf services/factories whose futures advance only by simulator actions; the result value with its trace, the exact sequence of inner calls, one build per inner factory with the supplied config and the first init error are compared with a small tree interpreter (poll-level reference model for factory futures). Sampling, not proof.",
+         "Trusts the interpreter (reference composition) and the scripted leaves; values are traced vectors so each mapper application is visible.", "§6.1"),
+ "C12": ("svcsim", "exploration",
+         "deterministic simulation: same trees, fresh waker identity per poll; waker-coverage and poll-discipline oracles",
+         "On every root poll_ready: result equals the readiness conjunction / first error of the interpreter, Ready(Ok) only after polling every inner service in that call, Pending only if every still-pending leaf holds the waker of this very call; on every future poll: no inner future polled after completion, no stage invoked twice, Pending only with a pending inner future holding the current waker; no combined future may be parked un-woken once its inner futures have completed. Sampling, not proof.",
+         "Leaves wake only when the simulator advances their script (a flip without a wake is never generated).", "§6.1"),
+ "C13": ("iosim", "fault_enumeration",
+         "deterministic simulation with fault injection: scripted read chunking, Pending placement, one read error, EOF; reference = same codec on the undivided stream",
+         "Byte streams (short ones over a delimiter-rich alphabet; long ones crossing the 1 KiB / 8 KiB marks incl. frames larger than 8 KiB) are delivered to the real Framed through a simulator-owned transport in seeded chunkings with Pending wherever it is polled dry, optionally one transient read error, then EOF; the item sequence must equal what the same codec yields on the undivided stream (LinesCodec, length-prefixed test codec; BytesCodec by concatenation), the injected error must surface exactly once and lose nothing. Fault-free and fault-injecting configurations are separate.",
+         "The reference is deliberately the codec itself on the whole buffer (C13 is about arrival independence, not about what a codec decodes).", "§6.2"),
+ "C14": ("iosim", "fault_enumeration",
+         "deterministic simulation with fault injection: scripted write results (k bytes / Pending / zero / error), flush and shutdown results; byte-ledger oracle",
+         "Item sequences with sizes straddling 1 KiB and 8 KiB are pushed through the real Framed Sink face while the transport script returns short writes, Pending, zero-length writes and errors, and flush/shutdown return Ok/Pending/Err, in any interleaving of poll_ready/start_send/poll_flush/poll_close under strict-wake; after every call the transport bytes are a prefix of the concatenated encodings, flush/close success implies nothing buffered (and shutdown done), poll_ready exerts back-pressure at the high-water mark, zero writes surface as WriteZero, errors are not swallowed, Pending has a transport cause.",
+         "After an injected error only the prefix invariant is kept (run ends).", "§6.2"),
  "C16": ("chansim", "exploration",
          "deterministic simulation: seeded operation interleavings under a strict-wake executor vs FIFO reference model",
          "Seeded search over operation histories (send / Sink send / clone / drop / close / poll / sender-from-receiver / drop receiver) of the real local-channel, every operation compared with a FIFO queue model and every wake-up obligation checked against counting wakers; sampling (millions of short histories per run), not proof.",
@@ -49,6 +65,10 @@ CHECKS = {
 ENGINES = [
  {"name": "srvsim", "path": "sim/srvsim", "serves_properties": ["C01", "C02", "C03", "C04", "C05", "C06", "C07", "C08"],
   "kind_free_text": "whole actix-server (real builder, Server future, accept loop, workers, sockets, epoll) stepped on one thread under a seeded scheduler with a paused tokio clock"},
+ {"name": "svcsim", "path": "sim/pollsim/src/svcsim.rs", "serves_properties": ["C11", "C12"],
+  "kind_free_text": "strict-wake poll-level simulator for actix-service combinator trees with a tree interpreter as reference"},
+ {"name": "iosim", "path": "sim/pollsim/src/iosim.rs", "serves_properties": ["C13", "C14"],
+  "kind_free_text": "scripted AsyncRead/AsyncWrite transport under Framed (chunking, Pending, short/zero writes, errors)"},
  {"name": "chansim", "path": "sim/pollsim/src/chansim.rs", "serves_properties": ["C16", "C17"],
   "kind_free_text": "strict-wake poll-level simulator for local-channel / Counter / LocalWaker"},
 ]
